@@ -11,7 +11,7 @@ pub trait Exec: Sc {
     fn exec(op: &str, f: &str, a: &[Val<Self>]) -> Option<Val<Self>>;
 }
 macro_rules! chain { ($op:expr, $f:expr, $a:expr; $($g:path),+) => {{ $( if let Some(r) = $g($op, $f, $a) { return Some(r); } )+ None }} }
-fn centroid<S: Sc + num_traits::NumCast>(op: &str, _f: &str, a: &[Val<S>]) -> Option<Val<S>> { crate::exec_lin::exec_centroid(op, a) }
+fn centroid<S: Sc + num_traits::NumCast + num_traits::Bounded>(op: &str, f: &str, a: &[Val<S>]) -> Option<Val<S>> { crate::exec_lin::exec_centroid(op, a).or_else(|| crate::exec_misc::exec_bounded(op, f, a)) }
 impl Exec for crate::q::Q {
     fn exec(op: &str, f: &str, a: &[Val<Self>]) -> Option<Val<Self>> {
         chain!(op, f, a; crate::exec_lin::exec_num, crate::exec_misc::exec_views, crate::exec_lin::exec_signed, centroid, crate::exec_lin::exec_flt_lin, crate::exec_geo::exec_flt_geo, crate::exec_misc::exec_flt_misc)
